@@ -118,10 +118,12 @@ class LipschitzStronglyMonotoneOperator(Function):
                                                       symmetry=True,
                                                       )
 
-        self.add_constraints_from_two_lists_of_points(list_of_points_1=self.list_of_points,
-                                                      list_of_points_2=self.list_of_points,
-                                                      constraint_name="lipschitz_continuity",
-                                                      set_class_constraint_i_j=
-                                                      self.set_lipschitz_continuity_constraint_i_j,
-                                                      symmetry=True,
-                                                      )
+        # With L == np.inf, only the strong monotonicity remains.
+        if self.L != np.inf:
+            self.add_constraints_from_two_lists_of_points(list_of_points_1=self.list_of_points,
+                                                          list_of_points_2=self.list_of_points,
+                                                          constraint_name="lipschitz_continuity",
+                                                          set_class_constraint_i_j=
+                                                          self.set_lipschitz_continuity_constraint_i_j,
+                                                          symmetry=True,
+                                                          )
